@@ -19,7 +19,7 @@ import (
 
 // C04 — bundle upload then download reproduces the uploaded tree (E2: exhaustive product over small trees).
 
-var c04paths = []string{"a", "b/c", "b/d e", "ü/x.y", "b/.datamon/z", ".datamon/x", ".conflicts/s/a", ".checkpoints/q"}
+var c04paths = []string{"-a", "b/c", "b/d e", "ü/x.y", "b/.datamon/z", ".datamon/x", ".conflicts/s/a", ".checkpoints/q"}
 
 func c04generated(p string) bool {
 	first := strings.SplitN(p, "/", 2)[0]
